@@ -1,5 +1,6 @@
 import MokapotVerif.Wire
 import MokapotVerif.Model.Digest
+import MokapotVerif.Model.DigestPat
 /-!
 Driver glue for `Model/Digest.lean`.
 
@@ -10,6 +11,15 @@ cheap on the Python side.  Requests:
     sites      <cls> <notNext> <seq>                          → [0 5 6 9 9]
     digest     <cls> <notNext> <seq> mc lo hi clip semi        → [qPEP qPEP …]  (model, insertion order)
     digestspec <cls> <notNext> <seq> mc lo hi clip semi        → [qPEP …]       (enumeration of the spec)
+    digestspec0 <cls> <notNext> <seq> mc lo hi clip semi       → [qPEP …]       (spec for all bounds, min_length = 0 included)
+    digestdefault <seq>                                        → [qPEP …]       (model of `digest(sequence)`)
+
+General patterns (`Model/DigestPat.lean`): a class is an atom `p<chars>` (`[chars]`) or
+`n<chars>` (`[^chars]`, `n` alone = `.`); a pattern is `[class …] <laPos> <laClass>`:
+
+    sitesp     [cls …] laPos laCls <seq>                       → [0 3 6]
+    digestp    [cls …] laPos laCls <seq> mc lo hi clip semi    → [qPEP …]       (model)
+    digestspecp [cls …] laPos laCls <seq> mc lo hi clip semi   → [qPEP …]       (enumeration of the spec, all bounds)
 -/
 namespace Mk.Ops
 open Mk V
@@ -47,7 +57,63 @@ def digestArgs (f : Enzyme → List Char → Nat → Nat → Nat → Bool → Bo
 def opDigest : List V → Option V := digestArgs digest
 def opDigestSpec : List V → Option V := digestArgs specList
 
+end Mk.Ops
+
+namespace Mk.Ops.Digest
+open Mk V Mk.Ops
+
+def opDigestSpec0 : List V → Option V := digestArgs specList0
+
+def opDigestDefault : List V → Option V
+  | [s] => do
+      let seq ← toRes? s
+      some (ofList ofRes (digestDefault seq))
+  | _ => none
+
+def toClass? : V → Option ResClass
+  | atom s =>
+    match s.toList with
+    | 'p' :: rest => some ⟨false, rest⟩
+    | 'n' :: rest => some ⟨true, rest⟩
+    | _ => none
+  | _ => none
+
+def toPattern? (cs pos la : V) : Option EnzymeP := do
+  let classes ← toList? toClass? cs
+  let pos ← toBool? pos
+  let la ← toClass? la
+  match classes with
+  | first :: more => some ⟨first, more, pos, la⟩
+  | [] => none
+
+def opSitesP : List V → Option V
+  | [cs, pos, la, s] => do
+      let e ← toPattern? cs pos la
+      let seq ← toRes? s
+      some (ofList ofNat (cleavageSitesP e seq))
+  | _ => none
+
+def digestPArgs (f : EnzymeP → List Char → Nat → Nat → Nat → Bool → Bool → List Pep) : List V → Option V
+  | [cs, pos, la, s, mc, lo, hi, clip, semi] => do
+      let e ← toPattern? cs pos la
+      let seq ← toRes? s
+      let mc ← toNat? mc
+      let lo ← toNat? lo
+      let hi ← toNat? hi
+      let clip ← toBool? clip
+      let semi ← toBool? semi
+      some (ofList ofRes (f e seq mc lo hi clip semi))
+  | _ => none
+
+end Mk.Ops.Digest
+
+namespace Mk.Ops
+open Mk V
+
 def digestOps : List (String × (List V → Option V)) :=
-  [("sites", opSites), ("digest", opDigest), ("digestspec", opDigestSpec)]
+  [("sites", opSites), ("digest", opDigest), ("digestspec", opDigestSpec),
+   ("digestspec0", Digest.opDigestSpec0), ("digestdefault", Digest.opDigestDefault),
+   ("sitesp", Digest.opSitesP), ("digestp", Digest.digestPArgs digestP),
+   ("digestspecp", Digest.digestPArgs specListP)]
 
 end Mk.Ops
